@@ -216,3 +216,50 @@ crate::verif_harness! {
         panic!("v() returned a wrapped value for a chain id with 35 + 2c + parity >= 2^256");
     }
 }
+
+// ------------------------------------------------------------------------------------------------
+// The text the property defines -- [0x] + 64 hex digits of r + 64 of s + two of v = 27 + parity,
+// rendered by the harness from symbolic in-range (r, s), parity, digit case and prefix choice --
+// parses back to an equal signature. (Cheaper than all ASCII strings: 65 symbolic bytes, every
+// character a hex digit; covers e.g. scalars with leading zero digits.)
+crate::verif_harness! {
+    #[kani::unwind(67)]
+    fn c15_spec_text() {
+        let r: [u8; 32] = kani::any();
+        let s: [u8; 32] = kani::any();
+        let parity: u8 = kani::any();
+        let prefixed: bool = kani::any();
+        let upper: bool = kani::any();
+        kani::assume(parity < 2);
+        kani::assume(scalar_in_range32(&r) && scalar_in_range32(&s));
+        let alphabet: &[u8; 16] = if upper { b"0123456789ABCDEF" } else { b"0123456789abcdef" };
+        let mut text = [0u8; 132];
+        text[0] = b'0';
+        text[1] = b'x';
+        let mut i = 0;
+        while i < 32 {
+            text[2 + 2 * i] = alphabet[(r[i] >> 4) as usize];
+            text[3 + 2 * i] = alphabet[(r[i] & 15) as usize];
+            text[66 + 2 * i] = alphabet[(s[i] >> 4) as usize];
+            text[67 + 2 * i] = alphabet[(s[i] & 15) as usize];
+            i += 1;
+        }
+        text[130] = b'1';
+        text[131] = if parity == 0 { alphabet[11] } else { alphabet[12] };
+        let t = if prefixed { &text[..] } else { &text[2..] };
+        let st = unsafe { core::str::from_utf8_unchecked(t) };
+        let got = Signature::from_str(st);
+        kani::cover!(prefixed && r[0] == 0 && r[1] < 16, "r with leading zero digits, prefixed");
+        kani::cover!(!prefixed && upper && parity == 1, "unprefixed upper case odd parity");
+        kani::cover!(s[0] == 0 && s[1] == 0, "small s");
+        match &got {
+            Ok(sig) => {
+                assert!(sig.r() == U256::from_be_bytes(r), "r differs from the text");
+                assert!(sig.s() == U256::from_be_bytes(s), "s differs from the text");
+                assert!(sig.y_parity() == U256::new(parity as u128), "parity differs from v");
+            }
+            Err(_) => panic!("the signature text defined by the property was rejected"),
+        }
+        core::mem::forget(got);
+    }
+}
